@@ -28,6 +28,9 @@ let undump (s : string) : dict =
       (fun e -> match String.split_on_char ':' e with [ k; v ] -> (unhex k, unhex v) | _ -> failwith "entry")
       (String.split_on_char ',' s)
 
+(* argv(1): "1" = Unit::operator^= of the pinned commit (exponent 0 keeps the factor), "0" = repaired *)
+let pz = Array.length Sys.argv < 2 || Sys.argv.(1) = "1"
+
 let () =
   try
     while true do
@@ -47,19 +50,19 @@ let () =
             ^ (match parse_text p with None -> "ERR" | Some d2 -> dump d2)
             ^ " E=" ^ dump (used_dict u d)
         | [ "G"; h ] -> (
-            match f_get_unit (unhex h) with
+            match f_get_unit pz (unhex h) with
             | None -> "G ERR"
             | Some u -> "G " ^ hex_of_fl u.uval ^ String.concat "" (List.map (fun e -> " " ^ string_of_int (z_to_int e)) u.uexp))
         | [ "C"; q; b; h ] -> (
             let q = nat_of_int (int_of_string q) in
-            match f_to_SI q (fl_of_hex b) (unhex h) with
+            match f_to_SI pz q (fl_of_hex b) (unhex h) with
             | None -> "C ERR"
             | Some si -> (
-                match f_to_unit q si (unhex h) with
+                match f_to_unit pz q si (unhex h) with
                 | None -> "C ERR"
                 | Some x -> "C " ^ hex_of_fl si ^ " " ^ hex_of_fl x))
         | [ "V"; b; f; t ] -> (
-            match f_convert (fl_of_hex b) (unhex f) (unhex t) with None -> "V ERR" | Some x -> "V " ^ hex_of_fl x)
+            match f_convert pz (fl_of_hex b) (unhex f) (unhex t) with None -> "V ERR" | Some x -> "V " ^ hex_of_fl x)
         | [ "S"; q ] ->
             let qi = int_of_string q in
             if qi < 0 || qi >= List.length si_names then "S ERR" else "S " ^ hex (si_name (nat_of_int qi))
